@@ -3,7 +3,8 @@ UnreferencedFootnotesDetector.apply and CollectFootnotes.apply translated statem
 (gen/c09_pywalk.py) into Gallina over the C11 model types (coq/Refs/Foot.v, FootOps.v).
 
 Domain mapping (TRUSTED, fail-closed - anything not listed raises Untranslatable):
-  self.document.settings.myst_footnote_sort / _transition -> the two boolean parameters
+  getattr(self.document, 'myst_footnote_sort' / 'myst_footnote_transition', True) -> the two boolean parameters
+  (the per-document values that _render_finalise stores on the document node)
   SortFootnotes:   self.document.autofootnote_refs -> g_autofootnote_refs g   (rf records)
                    self.document.autofootnotes     -> g_autofootnotes g       (fn records)
                    node["refname"] -> r_label node ; "refname" in node -> rf_has_refname node
@@ -159,9 +160,10 @@ class FootMap:
 
     def truthy(self, t, env, w):
         src = u(t)
-        if src == f"{DOC}.settings.myst_footnote_sort":
+        # the per-document values _render_finalise stores on the document node (default: the option's default)
+        if src == f"getattr({DOC}, 'myst_footnote_sort', True)":
             return "footnote_sort"
-        if src == f"{DOC}.settings.myst_footnote_transition":
+        if src == f"getattr({DOC}, 'myst_footnote_transition', True)":
             return "footnote_transition"
         if isinstance(t, ast.Compare) and len(t.ops) == 1 and isinstance(t.ops[0], ast.In):
             l, r = t.left, t.comparators[0]
